@@ -6,11 +6,13 @@ import (
 	"bytes"
 	"fmt"
 	"math/rand"
+	"sync"
 	"testing"
 	"time"
 
 	"verif.local/lib/evid"
 	"verif.local/lib/refs"
+	"verif.local/lib/rfc"
 	"verif.local/lib/xdrw"
 )
 
@@ -125,9 +127,27 @@ func vfC01Episode(rec *evid.Rec, ep int) {
 				payload[j] = byte(i*31 + j*7 + 1)
 			}
 			stable := uint32(rng.Intn(3))
-			ops = append(ops, fmt.Sprintf("WRITE %s off=%d len=%d stable=%d", f.name, off, n, stable))
+			// now and then the transfer size is lowered WHILE the request is being served (at its
+			// first backend call): whatever the server then stores, the count it reports is what it stored
+			shrinkTo := 0
+			if n > 2 && rng.Intn(8) == 0 {
+				shrinkTo = 1 + rng.Intn(n-1)
+				var once sync.Once
+				fs.SetHook(func(op *refs.Op, ph refs.Phase) error {
+					if ph == refs.Before {
+						once.Do(func() { srv.nfs.UpdateTuningOptions(func(t *TuningOptions) { t.TransferSize = shrinkTo }) })
+					}
+					return nil
+				})
+			}
+			ops = append(ops, fmt.Sprintf("WRITE %s off=%d len=%d stable=%d (transfer size lowered to %d in mid-request)", f.name, off, n, stable, shrinkTo))
 			rec.Eval(1)
 			r, err := c.write(f.fh, off, stable, payload)
+			if shrinkTo > 0 {
+				fs.SetHook(nil)
+				srv.nfs.UpdateTuningOptions(func(t *TuningOptions) { t.TransferSize = ts })
+				rec.Add("writes_with_transfer_size_change_in_flight", 1)
+			}
 			if err != nil || r == nil {
 				fail("C01/write-no-reply", fmt.Sprintf("%v", err))
 				return
@@ -225,15 +245,39 @@ func vfC01Episode(rec *evid.Rec, ep int) {
 			default:
 				ns = uint64(rng.Intn(2*ts + 1))
 			}
-			ops = append(ops, fmt.Sprintf("SETATTR %s size=%d", f.name, ns))
+			// a quarter of them carry a guard (sattrguard3): the object's current ctime, or a stale one
+			guard := "none"
+			var gs, gn uint32
+			if rng.Intn(4) == 0 {
+				if g, _ := c.getattr(f.fh); g != nil && g.Status == 0 {
+					gs, gn = g.Attr.Ctime[0], g.Attr.Ctime[1]
+					guard = "current"
+					if rng.Intn(2) == 0 {
+						gs, guard = gs-1000, "stale"
+					}
+				}
+			}
+			ops = append(ops, fmt.Sprintf("SETATTR %s size=%d guard=%s", f.name, ns, guard))
 			rec.Eval(1)
-			r, err := c.setattr(f.fh, xdrw.Sattr3{Size: xdrw.U64p(ns)})
+			var r *rfc.Res
+			var err error
+			if guard == "none" {
+				r, err = c.setattr(f.fh, xdrw.Sattr3{Size: xdrw.U64p(ns)})
+			} else {
+				_, r, err = c.nfs(2, xdrw.ArgSetattr(f.fh, xdrw.Sattr3{Size: xdrw.U64p(ns)}, true, gs, gn))
+			}
 			if err != nil || r == nil {
 				fail("C01/setattr-no-reply", fmt.Sprintf("%v", err))
 				return
 			}
 			outcome := "err"
-			if r.Status == 0 {
+			if guard == "stale" {
+				// the guard does not match: nothing may change, whatever the status says
+				if r.Status == 0 {
+					fail("C01/guarded-setattr-with-stale-ctime-succeeded", fmt.Sprintf("SETATTR size=%d with a guard ctime 1000 s in the past answered OK", ns))
+				}
+				outcome = "guard-refused"
+			} else if r.Status == 0 {
 				outcome = "ok"
 				if ns > L {
 					fail("C01/setattr-ok-beyond-backend-limit", fmt.Sprintf("size=%d", ns))
@@ -245,8 +289,8 @@ func vfC01Episode(rec *evid.Rec, ep int) {
 				if r.Wcc.Post.Present && r.Wcc.Post.A.Size != ns {
 					fail("C01/size-attr-mismatch/SETATTR", fmt.Sprintf("post-op size %d, want %d", r.Wcc.Post.A.Size, ns))
 				}
-			} else if ns <= L {
-				fail("C01/setattr-size-refused", fmt.Sprintf("SETATTR size=%d (limit %d) status %d", ns, L, r.Status))
+			} else if ns <= L && guard != "stale" {
+				fail("C01/setattr-size-refused", fmt.Sprintf("SETATTR size=%d (limit %d) guard=%s status %d", ns, L, guard, r.Status))
 			}
 			checkBackend(f, "SETATTR-"+outcome)
 			cls := "shrink"
@@ -256,7 +300,7 @@ func vfC01Episode(rec *evid.Rec, ep int) {
 			if ns > L {
 				cls = "over-limit"
 			}
-			rec.Distinct(fmt.Sprintf("SETATTR|%s|%s|%s", cls, outcome, cfg))
+			rec.Distinct(fmt.Sprintf("SETATTR|%s|%s|guard=%s|%s", cls, outcome, guard, cfg))
 		case k < 96: // GETATTR
 			ops = append(ops, "GETATTR "+f.name)
 			rec.Eval(1)
